@@ -200,7 +200,10 @@ def dynamic(ctx, state_unfixed, record=True):
     # 0. the sequential reference of the harness agrees with the store (otherwise the linearizability runs mean nothing)
     st, _ = hconc(["-mode", "selftest", "-n", "1500" if quick else "20000", "-seed", seed])
     meas["selftest"] = {k: st[-1].get(k) for k in ("ops", "mismatches", "lookups", "nonempty_lookups")}
-    if st[-1].get("result") != "crashed" and st[-1].get("mismatches", 1) != 0:
+    if st[-1].get("result") == "hang":
+        problems.append({"kind": "hang-or-deadlock", "where": "selftest (a single goroutine blocks on the store)",
+                         "goroutines": str(st[-1].get("goroutines"))[:1500]})
+    elif st[-1].get("result") != "crashed" and st[-1].get("mismatches", 1) != 0:
         problems.append({"kind": "sequential-reference-mismatch", "first": st[-1].get("first"),
                          "explain": "single-goroutine run: the store and h_conc's reference model disagree"})
     # 1. linearizability of recorded concurrent histories
